@@ -170,6 +170,9 @@ class C09(common.Spec):
                 if kind == 'abort_before':
                     log.append(['src', 'abort', tag])
                     circuit.abort(Tagged(tag))
+                elif kind == 'cancel_before':
+                    # a stop request before the start (logged by the abort wrapper as a cancellation)
+                    circuit.abort(asyncio.CancelledError('stop requested before the start'))
 
             async def sup(i, spec):
                 t, what, tag = spec
@@ -197,7 +200,7 @@ class C09(common.Spec):
                 started = False
             if started:
                 for t, kind, tag in case['events']:
-                    if kind == 'abort_before':
+                    if kind in ('abort_before', 'cancel_before'):
                         continue
                     delay = t / 1e6 - loop.time()
                     if delay > 0:
@@ -258,6 +261,9 @@ class C09(common.Spec):
                 obs['run'] = ['raises', tag_of(err)]
             for t in sh_tasks:
                 obs['shutdown'] = await t
+            if not sh_tasks:
+                # shutdown() after the end: re-raises the error that stopped the simulation
+                obs['shutdown'] = await do_shutdown()
             err = circuit.error
             obs['error'] = None if err is None else (['cancel'] if isinstance(err, asyncio.CancelledError)
                                                       else ['exc', tag_of(err)])
@@ -358,7 +364,7 @@ def gen_case(rng):
         tag += 1
     events.sort(key=lambda e: e[0])
     if rng.random() < 0.06:
-        events.insert(0, [0, 'abort_before', 99])
+        events.insert(0, [0, 'abort_before', 99] if rng.random() < 0.6 else [0, 'cancel_before', None])
     sups = []
     for _ in range(rng.choice([0, 0, 1, 2])):
         what = rng.choice(['forever', 'fail', 'ok'])
